@@ -228,6 +228,7 @@ type c21Op struct {
 	Kind string // filler | candidate | join | policy
 	K    int    // filler: number of state keys (0: the operation is processed but stays out of state)
 	Base int    // filler: first key index (overlaps with other blocks give states a previous value)
+	Rep  int    // filler: > 1: that many filler operations of K keys each, on consecutive key ranges (blocks with many operations)
 }
 
 type c21Blk struct {
@@ -243,10 +244,17 @@ type c21Scn struct {
 	H      c21Blk
 	Next   c21Blk
 	Worker int64
+	// NoCrashOnly: only the pass without a crash (write everything, merge all into the permanent store, reopen, check
+	// every record); used for blocks whose crash points would be too many to enumerate in the quick tier
+	NoCrashOnly bool
 }
 
 func (o c21Op) String() string {
 	if o.Kind == "filler" {
+		if o.Rep > 1 {
+			return fmt.Sprintf("%dxf%d@%d", o.Rep, o.K, o.Base)
+		}
+
 		return fmt.Sprintf("f%d@%d", o.K, o.Base)
 	}
 
@@ -277,10 +285,25 @@ func (s c21Scn) String() string {
 		ps[i] = s.Prior[i].String()
 	}
 
-	return fmt.Sprintf("%s{n=%d w=%d prior=%s H=%s next=%s}", s.Name, s.NSuf, s.Worker, strings.Join(ps, ""), s.H, s.Next)
+	nc := ""
+	if s.NoCrashOnly {
+		nc = " no-crash-pass-only"
+	}
+
+	return fmt.Sprintf("%s{n=%d w=%d prior=%s H=%s next=%s%s}", s.Name, s.NSuf, s.Worker, strings.Join(ps, ""), s.H, s.Next, nc)
 }
 
 func c21F(k, base int) c21Op { return c21Op{Kind: "filler", K: k, Base: base} }
+
+func c21FN(rep, k, base int) c21Op { return c21Op{Kind: "filler", K: k, Base: base, Rep: rep} }
+
+func (o c21Op) reps() int {
+	if o.Kind == "filler" && o.Rep > 1 {
+		return o.Rep
+	}
+
+	return 1
+}
 
 // keys of a block in the stores: states + in-state record + known record + block map + merged marker (+2 proofs)
 func (b c21Blk) fillerKeys() int {
@@ -288,8 +311,18 @@ func (b c21Blk) fillerKeys() int {
 
 	for _, o := range b.Ops {
 		if o.Kind == "filler" {
-			n += o.K
+			n += o.K * o.reps()
 		}
+	}
+
+	return n
+}
+
+func (b c21Blk) nops() int {
+	n := 0
+
+	for _, o := range b.Ops {
+		n += o.reps()
 	}
 
 	return n
@@ -415,15 +448,22 @@ func (b *c21Built) makeOps(w *chain.World, blk c21Blk, tag string) []base.Operat
 
 		switch o.Kind {
 		case "filler":
-			keys := make([]string, o.K)
-			vals := make([]string, o.K)
+			for x := 0; x < o.reps(); x++ {
+				keys := make([]string, o.K)
+				vals := make([]string, o.K)
 
-			for j := 0; j < o.K; j++ {
-				keys[j] = fmt.Sprintf("c21/%05d", o.Base+j)
-				vals[j] = fmt.Sprintf("%s/%d", tag, j)
+				for j := 0; j < o.K; j++ {
+					keys[j] = fmt.Sprintf("c21/%05d", o.Base+x*o.K+j)
+					vals[j] = fmt.Sprintf("%s/%d", tag, x*o.K+j)
+				}
+
+				l := label
+				if x > 0 {
+					l = fmt.Sprintf("%s-r%d", label, x)
+				}
+
+				ops = append(ops, chain.NewFillerOperation(l, keys, vals, gen.Local(9)))
 			}
-
-			ops = append(ops, chain.NewFillerOperation(label, keys, vals, gen.Local(9)))
 		case "candidate":
 			idx := 10 + len(b.cands)
 			n := gen.Local(idx)
@@ -1131,7 +1171,7 @@ func (b *c21Built) sizeClass() string {
 	k := b.Scn.H.fillerKeys()
 
 	switch {
-	case k+6 > 333:
+	case k+2*b.Scn.H.nops()+4 > 333:
 		return "size:multi-permanent-batch"
 	case 2*k+1 >= 128:
 		return "size:multi-write-batch"
@@ -1153,6 +1193,18 @@ func (b *c21Built) features() []string {
 
 	if b.Scn.H.Garbage > 0 || b.Scn.Next.Garbage > 0 {
 		fs = append(fs, "feat:cancelled-write-leftover")
+	}
+
+	if b.Scn.H.nops() >= 100 {
+		fs = append(fs, "feat:>=100-operations")
+	}
+
+	for i := range b.Model {
+		if base.Height(i) != b.HH && len(b.Model[i].States) > 333 {
+			fs = append(fs, "feat:other-block-multi-permanent-batch")
+
+			break
+		}
 	}
 
 	if int64(len(b.Model)-1)-b.PermLast.Int64() >= 4 {
@@ -1371,33 +1423,46 @@ func c21Masks(g int) []uint64 {
 	return ms
 }
 
+// noCrash: all blocks are written, MergeAllPermanent completes, the storage is closed and reopened. Every block is
+// committed, so the statement's first alternative applies to each: it is visible with its map, every state, every
+// operation record and its proofs ("startup never presents a block with only part of its data").
+func (b *c21Built) noCrash(t ev.TB, r *ev.Rec) c21Result {
+	w, str, cleanup := b.restore(t, b.S1)
+	defer cleanup()
+
+	n0 := runtime.NumGoroutine()
+
+	if err := c21Guarded(t, "permanent merge (no crash)", w.DB.MergeAllPermanent); err != nil {
+		t.Fatalf("harness: permanent merge of %s without a crash: %+v", b.Scn, err)
+	}
+
+	c21Quiesce(n0)
+
+	_ = w.St.Close()
+
+	top := base.Height(len(b.Model) - 1)
+
+	desc := fmt.Sprintf("scenario %s without any crash: all blocks up to %d written and saved, MergeAllPermanent completed (last permanent height before: %d), storage closed and reopened",
+		b.Scn, top, b.PermLast)
+
+	res := b.verify(t, c21Report(t, r), "nocrash", desc, str, top, top)
+
+	r.Case(b.Scn.String()+"|nocrash", false, append(b.features(), "phase:no-crash-merge-reopen")...)
+
+	return res
+}
+
 // c21RunScenario enumerates every crash point of the scenario. mine selects the crash points of this shard.
 func c21RunScenario(t ev.TB, r *ev.Rec, ctl *c21Ctl, stats *c21Stats, scn c21Scn, mine func(i int) bool) {
 	b := c21Build(t, ctl, scn)
 
-	// the crash-free run itself must satisfy the oracle (otherwise the model or a read is not usable for this property)
-	{
-		w, str, cleanup := b.restore(t, b.S1)
-		n0 := runtime.NumGoroutine()
+	// the pass without a crash: every write of every phase reaches the storage (the crash point after the very last write)
+	b.noCrash(t, r)
 
-		if err := w.DB.MergeAllPermanent(); err != nil {
-			t.Fatalf("harness: %+v", err)
-		}
+	if r.Failed() || scn.NoCrashOnly {
+		r.Class("scenarios", 1)
 
-		c21Quiesce(n0)
-
-		_ = w.St.Close()
-		defer cleanup()
-
-		top := base.Height(len(b.Model) - 1)
-
-		var msg string
-
-		res := b.verify(t, func(_, m string) { msg = m }, "crashfree", "scenario "+scn.String()+" without any crash", str, top, top)
-
-		if res.Violated {
-			t.Fatalf("harness: the crash-free run of %s does not satisfy the oracle (not a crash-atomicity matter): %s", scn, msg)
-		}
+		return
 	}
 
 	i := 0
@@ -1476,6 +1541,20 @@ func c21Fixed(thorough bool) []c21Scn {
 		c21Scn{Name: "large3", NSuf: 3, Worker: 8,
 			Prior: []c21Blk{{Ops: []c21Op{c21F(100, 0)}}},
 			H:     c21Blk{Ops: []c21Op{c21F(700, 50)}}, Next: c21Blk{Ops: []c21Op{c21F(3, 0)}}})
+
+	// large blocks (more records than one batch of 333 of the permanent merge, several batches per record kind), the pass
+	// without a crash only. At most 300 operations in a block: isaac.DefaultMaxOperationsInProposal is 333.
+	scns = append(scns,
+		c21Scn{Name: "nc-states1000", NSuf: 3, Worker: 8, NoCrashOnly: true,
+			Prior: []c21Blk{{Ops: []c21Op{c21F(50, 0)}}},
+			H:     c21Blk{Ops: []c21Op{c21F(1000, 20)}}, Next: c21Blk{Ops: []c21Op{c21F(400, 0)}}},
+		c21Scn{Name: "nc-ops300", NSuf: 3, Worker: 8, NoCrashOnly: true,
+			Prior: []c21Blk{{Ops: []c21Op{c21F(10, 0)}, Merge: true}},
+			H:     c21Blk{Ops: []c21Op{c21FN(300, 2, 5)}}, Next: c21Blk{Ops: []c21Op{c21F(3, 0)}}},
+		c21Scn{Name: "nc-backlog-large", NSuf: 2, Worker: 4, NoCrashOnly: true,
+			Prior: []c21Blk{{Ops: []c21Op{c21F(340, 0), cand}}, {Ops: []c21Op{c21FN(120, 1, 300), c21F(400, 500), join}}},
+			H:     c21Blk{Ops: []c21Op{c21F(667, 100), policy}}, Next: c21Blk{Ops: []c21Op{c21FN(150, 3, 0)}}},
+	)
 
 	if !thorough {
 		return scns
@@ -1611,6 +1690,87 @@ func c21GenScn(rt *rapid.T, thorough bool) c21Scn {
 	return scn
 }
 
+// c21GenLargeBlk draws a block with more records than one batch of the permanent merge (333): 334..max states in one
+// or a few operations, or 112..300 operations (each: one known-operation record, one in-state record, 1..3 states).
+func c21GenLargeBlk(rt *rapid.T, label string, max int) c21Blk {
+	var blk c21Blk
+
+	switch rapid.IntRange(0, 3).Draw(rt, label+"-shape") {
+	case 0:
+		blk.Ops = append(blk.Ops, c21F(rapid.IntRange(334, max).Draw(rt, label+"-states"), rapid.IntRange(0, 400).Draw(rt, label+"-base")))
+	case 1:
+		total := rapid.IntRange(334, max).Draw(rt, label+"-states")
+		n := rapid.IntRange(2, 4).Draw(rt, label+"-nops")
+		bs := rapid.IntRange(0, 400).Draw(rt, label+"-base")
+
+		for i := 0; i < n; i++ {
+			k := total / n
+			if i == 0 {
+				k += total % n
+			}
+
+			blk.Ops = append(blk.Ops, c21F(k, bs))
+			bs += k + rapid.IntRange(0, 3).Draw(rt, label+"-gap")
+		}
+	default:
+		k := rapid.IntRange(1, 3).Draw(rt, label+"-keys")
+		n := rapid.IntRange(112, 300).Draw(rt, label+"-nops")
+
+		if n*k > max {
+			n = max / k
+		}
+
+		blk.Ops = append(blk.Ops, c21FN(n, k, rapid.IntRange(0, 400).Draw(rt, label+"-base")))
+	}
+
+	switch rapid.IntRange(0, 5).Draw(rt, label+"-extra") {
+	case 0:
+		blk.Ops = append(blk.Ops, c21Op{Kind: "policy"})
+	case 1:
+		blk.Ops = append(blk.Ops, c21Op{Kind: "candidate"})
+	}
+
+	return blk
+}
+
+// c21GenLargeScn: large blocks for the pass without a crash (H is served by the permanent store after the reopen, H+1 by
+// its reloaded temp).
+func c21GenLargeScn(rt *rapid.T, thorough bool) c21Scn {
+	max := 1000
+	if thorough {
+		max = 2400
+	}
+
+	small := []int{0, 1, 5, 20, 60, 61}
+
+	scn := c21Scn{Name: "drawnlarge", NoCrashOnly: true,
+		NSuf: rapid.IntRange(1, 4).Draw(rt, "nsuf"), Worker: int64(rapid.SampledFrom([]int{1, 2, 8}).Draw(rt, "worker"))}
+
+	np := rapid.IntRange(0, 2).Draw(rt, "nprior")
+	for i := 0; i < np; i++ {
+		var blk c21Blk
+
+		if rapid.IntRange(0, 2).Draw(rt, "prior-large") == 0 {
+			blk = c21GenLargeBlk(rt, fmt.Sprintf("prior%d", i), max)
+		} else {
+			blk = c21GenBlk(rt, fmt.Sprintf("prior%d", i), small, i > 0)
+		}
+
+		blk.Merge = rapid.Bool().Draw(rt, "merge")
+		scn.Prior = append(scn.Prior, blk)
+	}
+
+	scn.H = c21GenLargeBlk(rt, "h", max)
+
+	if rapid.IntRange(0, 2).Draw(rt, "next-large") == 0 {
+		scn.Next = c21GenLargeBlk(rt, "next", max)
+	} else {
+		scn.Next = c21GenBlk(rt, "next", small, true)
+	}
+
+	return scn
+}
+
 func TestC21(t *testing.T) {
 	r := ev.Start(t, "C21")
 	defer r.Finish()
@@ -1619,6 +1779,7 @@ func TestC21(t *testing.T) {
 		"fixed list (small, suffrage-changing, policy, multi write batch, cancelled-write leftover, > 333 keys, backlog of temps) plus rapid-drawn ones; " +
 		"crash points: every write budget 0..W of writing H and of writing H+1 (block write batches, block map, proofs, merged marker, leftover removal), and for MergeAllPermanent " +
 		"every concurrent write group x every subset of its in-flight batches (all 2^g subsets for g<=5, prefixes/singletons/co-singletons above); " +
+		"for every scenario also the pass without a crash (all writes reach the storage, MergeAllPermanent completes), and only that pass for blocks of 334..1000 states or 112..300 operations (fixed and rapid-drawn); " +
 		"after each: close, reopen the same goleveldb storage, read maps, all states, operations, proofs, policy through a fresh Center and compare with the block files of a crash-free run. " +
 		"non-trivial: at least one write of the phase reached the storage and at least one did not; distinct by (scenario, phase, crash point)")
 	r.Floor(50)
@@ -1651,13 +1812,32 @@ func TestC21(t *testing.T) {
 		}
 	})
 
+	// a rapid fail file replays one of the two drawn phases: the large-block phase draws "h-shape"
+	replay, replayLarge := false, false
+
+	if f := os.Getenv("VERIF_RAPID_FAILFILE"); f != "" {
+		fb, _ := os.ReadFile(f)
+		replay, replayLarge = true, strings.Contains(string(fb), "h-shape")
+	}
+
 	// ---- B. drawn scenarios, every crash point of each
-	if !r.Failed() {
+	if !r.Failed() && !t.Failed() && !replayLarge {
 		r.Checks(3, 192)
 		r.ShrinkTime(60 * time.Second)
 
 		rapid.Check(t, func(rt *rapid.T) {
 			scn := c21GenScn(rt, r.Thorough())
+			c21RunScenario(rt, r, ctl, stats, scn, func(int) bool { return true })
+		})
+	}
+
+	// ---- C. drawn large blocks (> one permanent-merge batch per record kind), the pass without a crash
+	if !r.Failed() && !t.Failed() && (!replay || replayLarge) {
+		r.Checks(4, 96)
+		r.ShrinkTime(60 * time.Second)
+
+		rapid.Check(t, func(rt *rapid.T) {
+			scn := c21GenLargeScn(rt, r.Thorough())
 			c21RunScenario(rt, r, ctl, stats, scn, func(int) bool { return true })
 		})
 	}
